@@ -24,13 +24,14 @@ type c11Ctl struct {
 	ctx      *batchcontext.BatchContext
 	upgrades int
 	buildErr error
+	pods     []*corev1.Pod
 	acted    int // Initialize / UpgradeBatch / Finalize calls that reached the workload controller
 }
 
 // the real controllers return themselves together with the error of the failed workload read
 func (c *c11Ctl) BuildController() (Interface, error)   { return c, c.buildErr }
 func (c *c11Ctl) GetWorkloadInfo() *util.WorkloadInfo   { return c.info }
-func (c *c11Ctl) ListOwnedPods() ([]*corev1.Pod, error) { return nil, nil }
+func (c *c11Ctl) ListOwnedPods() ([]*corev1.Pod, error) { return c.pods, nil }
 func (c *c11Ctl) CalculateBatchContext(release *v1beta1.BatchRelease) (*batchcontext.BatchContext, error) {
 	return c.ctx, nil
 }
@@ -202,4 +203,54 @@ func VerifC11_PartitionStylePlaneClassifiesWorkloadChanges() {
 			verifrt.Assert(event == control.WorkloadNormalState, "C11.partitionstyle.plane.sync.otherwiseNormal")
 		}
 	}
+}
+
+// VerifC11_PartitionStyleNoNeedUpdateCountIsStable: in a rollback in batches the pods that were already on the target
+// revision when the rollback began are marked no-need-update once, and every batch's readiness target is computed
+// from their number.  The recount that runs before each batch must return the number of live, target-revision pods
+// carrying this release's no-need-update mark — whatever other labels (the batch labels the patcher puts on some of
+// them on purpose) those pods have acquired since: a count that drifts down lowers the targets of later batches, and a
+// batch is reported ready with fewer pods rolled back than it calls for.
+func VerifC11_PartitionStyleNoNeedUpdateCountIsStable() {
+	rc, ctl := c11Plane()
+	rc.release.Spec.ReleasePlan.RolloutID = "rid-1"
+	rc.release.Status.UpdateRevision = "rev-target"
+	before := int32(verifrt.IntRange("status.noNeedUpdateReplicas", 0, 5))
+	rc.release.Status.CanaryStatus.NoNeedUpdateReplicas = &before
+	n := verifrt.Bound("pods", 3, 4)
+	want := int32(0)
+	for i := 0; i < n; i++ {
+		p := &corev1.Pod{ObjectMeta: metav1.ObjectMeta{Namespace: "ns", Name: []string{"p0", "p1", "p2", "p3"}[i], Labels: map[string]string{}}}
+		onTarget := verifrt.Bool("pod.onTargetRevision")
+		if onTarget {
+			p.Labels["controller-revision-hash"] = "rev-target"
+		} else {
+			p.Labels["controller-revision-hash"] = "rev-other"
+		}
+		marked := verifrt.IntRange("pod.noNeedUpdateMark", 0, 2) // 0 none, 1 this release, 2 an earlier release
+		switch marked {
+		case 1:
+			p.Labels[util.NoNeedUpdatePodLabel] = "rid-1"
+		case 2:
+			p.Labels[util.NoNeedUpdatePodLabel] = "rid-0"
+		}
+		if verifrt.Bool("pod.hasBatchLabel") {
+			p.Labels[v1beta1.RolloutIDLabel] = "rid-1"
+			p.Labels[v1beta1.RolloutBatchIDLabel] = "1"
+		}
+		terminating := verifrt.Bool("pod.terminating")
+		if terminating {
+			now := metav1.Now()
+			p.DeletionTimestamp = &now
+		}
+		if onTarget && marked == 1 && !terminating {
+			want++
+		}
+		ctl.pods = append(ctl.pods, p)
+	}
+	err := rc.countAndUpdateNoNeedUpdateReplicas()
+	verifrt.Assert(err == nil, "C11.partitionstyle.noNeed.count.noError")
+	got := rc.newStatus.CanaryStatus.NoNeedUpdateReplicas
+	verifrt.Assert(got != nil && *got == want, "C11.partitionstyle.noNeed.countIsTheMarkedLivePodsOfTheTargetRevision")
+	verifrt.Assert(rc.release.Status.CanaryStatus.NoNeedUpdateReplicas != nil && *rc.release.Status.CanaryStatus.NoNeedUpdateReplicas == want, "C11.partitionstyle.noNeed.countUsedForTheBatchContextToo")
 }
